@@ -15,3 +15,22 @@ def net(prop, quick=40, thorough=900):
 
 
 PROPS = {p: net(p) for p in ["C07", "C08", "C09", "C10", "C11", "C12", "C13", "C14"]}
+
+
+PLAN_COMPONENTS = {"real": ["riddle lexer/parser", "core (types, items, constructors, predicates)", "solver (graph h_1, flaws, resolvers, smart types)", "smt (sat_core, LRA, IDL, RDL, OV)"],
+                   "stub": [], "reference": ["own exact evaluator of the generated AST (GMP rationals + epsilon)", "z3 on the constraint-only fragment for negative verdicts"]}
+PLAN_RULE = ("a run = one generated RIDDLE problem (integer ops -> own AST -> text) delivered as a history of read()/solve()/pop-to-root calls under one seeded heap layout "
+             "(layout 0 = LIFO, others = seeded slot choice; each problem runs under K layouts); non-trivial = the planner created at least one flaw with >= 2 resolvers; "
+             "distinct = distinct hash of (program text of all units, layout)")
+PLAN_ASSUME = ["the generated fragment only (see DESIGN.md 3.2); solve() not finishing within the per-run wall limit is counted as inconclusive",
+               "z3 verdicts on the constraint-only fragment are correct"]
+
+
+def plan(prop, quick=40, thorough=900):
+    return {"engine": "plan", "configs": {"quick": ["dbg"], "thorough": ["dbg", "rel", "dbg_hadd", "dbg_ci", "rel_hadd_ci"]}, "budget": {"quick": quick, "thorough": thorough},
+            "layouts": {"quick": 3, "thorough": 6}, "run_kv": {"timeout_ms": 3000},
+            "level": "exploration", "rule": PLAN_RULE, "components": PLAN_COMPONENTS, "assumptions": PLAN_ASSUME, "sim_time_counter": "solves"}
+
+
+for _p in ["C01", "C02", "C03", "C04", "C05", "C06", "C17"]:
+    PROPS[_p] = plan(_p)
